@@ -59,6 +59,7 @@ impl Writer {
         }
     }
 
+    #[cfg_attr(unix, allow(dead_code))]
     fn is_tty(&self) -> bool {
         // 1.40 compat
         #[allow(clippy::match_like_matches_macro)]
@@ -193,7 +194,7 @@ impl ConsoleAppenderBuilder {
             },
         };
 
-        let do_write = writer.is_tty() || !self.tty_only;
+        let do_write = target_is_tty(self.target, &writer) || !self.tty_only;
 
         ConsoleAppender {
             writer,
@@ -203,6 +204,21 @@ impl ConsoleAppenderBuilder {
             do_write,
         }
     }
+}
+
+/// Whether the target stream itself is a terminal, independent of the colour settings.
+#[cfg(unix)]
+fn target_is_tty(target: Target, _writer: &Writer) -> bool {
+    let fd = match target {
+        Target::Stdout => libc::STDOUT_FILENO,
+        Target::Stderr => libc::STDERR_FILENO,
+    };
+    unsafe { libc::isatty(fd) == 1 }
+}
+
+#[cfg(not(unix))]
+fn target_is_tty(_target: Target, writer: &Writer) -> bool {
+    writer.is_tty()
 }
 
 /// The stream to log to.
